@@ -35,6 +35,49 @@ type scenario struct {
 	ArriveAt  []int    `json:"arrive_ms"` // per hash: arrival time in ms, -1 = never
 	Preheld   []bool   `json:"preheld"`   // per hash: already held before any announcement
 	LateAnn   int      `json:"late_announcer_ms"` // >0: the last announcer announces at this time instead of 0
+	AnnAt     []int    `json:"announce_at_ms,omitempty"` // per announcer thread: announcement time (staggered scenarios)
+	Pool      bool     `json:"pool_like_holder,omitempty"` // holder like the tx pool: 1 parallel pull, arrival does not call RemovePull
+	HorizonMs int      `json:"horizon_ms,omitempty"`     // virtual-time horizon (default 3.5 pull delays)
+}
+
+func (sc scenario) cap() int {
+	if sc.Pool {
+		return 1
+	}
+	return 3
+}
+
+// poolHolder behaves like core/mempool.TxPool as a push/pull holder: one parallel pull, Add is
+// a no-op, and storing an item (it arrives as an ordinary NewTx message) does not touch the tracker.
+type poolHolder struct {
+	mu      sync.Mutex
+	has     map[common.Hash128]bool
+	tracker pushpull.PendingPushTracker
+}
+
+func (h *poolHolder) Add(common.Hash128, interface{}, common.ShardId, bool) {}
+func (h *poolHolder) Has(x common.Hash128) bool {
+	h.mu.Lock()
+	defer h.mu.Unlock()
+	return h.has[x]
+}
+func (h *poolHolder) Get(x common.Hash128) (interface{}, common.ShardId, bool, bool) {
+	return "entry", common.MultiShard, false, h.Has(x)
+}
+func (h *poolHolder) MaxParallelPulls() uint32                   { return 1 }
+func (h *poolHolder) SupportPendingRequests() bool               { return true }
+func (h *poolHolder) PushTracker() pushpull.PendingPushTracker  { return h.tracker }
+func (h *poolHolder) store(x common.Hash128) {
+	h.mu.Lock()
+	h.has[x] = true
+	h.mu.Unlock()
+}
+
+func (sc scenario) horizon() time.Duration {
+	if sc.HorizonMs > 0 {
+		return time.Duration(sc.HorizonMs) * time.Millisecond
+	}
+	return horizon
 }
 
 var hmu sync.Mutex // protects the harness' own records in the free-running race pass
@@ -56,7 +99,7 @@ func runScenario(sc scenario, prefix []int) (*sched.Exec, *obs) {
 	var tracker *pushpull.DefaultPushTracker
 	var holder pushpull.Holder
 	body := scenarioBody(sc, o, &tracker, &holder)
-	x := sched.Run(prefix, start, horizon, 200000, body)
+	x := sched.Run(prefix, start, sc.horizon(), 200000, body)
 	if tracker != nil {
 		o.pending, o.active = tracker.VerifSizes()
 		for h := range sc.ArriveAt {
@@ -72,10 +115,20 @@ func scenarioBody(sc scenario, o *obs, trackerP **pushpull.DefaultPushTracker, h
 		var holder pushpull.Holder
 		defer func() { *trackerP, *holderP = tracker, holder }()
 		tracker = pushpull.NewDefaultPushTracker(pullDelay)
-		holder = pushpull.NewDefaultHolder(3, tracker) // starts the real tracker loop and gc as logical threads
+		var ph *poolHolder
+		if sc.Pool {
+			ph = &poolHolder{has: map[common.Hash128]bool{}, tracker: tracker}
+			holder = ph
+			tracker.SetHolder(ph) // as NewTxPool / TxPool.Initialize do
+			tracker.Run()
+		} else {
+			holder = pushpull.NewDefaultHolder(3, tracker) // starts the real tracker loop and gc as logical threads
+		}
 		m := protocol.VerifNewPPM(holder)
 		for h, pre := range sc.Preheld {
-			if pre {
+			if pre && ph != nil {
+				ph.store(hashOf(h))
+			} else if pre {
 				holder.Add(hashOf(h), "entry", common.MultiShard, false)
 			}
 		}
@@ -95,6 +148,9 @@ func scenarioBody(sc scenario, o *obs, trackerP **pushpull.DefaultPushTracker, h
 				if sc.LateAnn > 0 && i == len(sc.Announce)-1 {
 					e.Sleep(time.Duration(sc.LateAnn) * time.Millisecond)
 				}
+				if i < len(sc.AnnAt) && sc.AnnAt[i] > 0 {
+					e.Sleep(time.Duration(sc.AnnAt[i]) * time.Millisecond)
+				}
 				m.VerifAddPush(fmt.Sprintf("P%d", a[0]), hashOf(a[1]))
 				hmu.Lock()
 				o.announced[a[1]] = append(o.announced[a[1]], fmt.Sprintf("P%d", a[0]))
@@ -108,7 +164,11 @@ func scenarioBody(sc scenario, o *obs, trackerP **pushpull.DefaultPushTracker, h
 			}
 			e.Go(fmt.Sprintf("arrival-%d", h), func() {
 				e.Sleep(time.Duration(at) * time.Millisecond)
-				holder.Add(hashOf(h), "entry", common.MultiShard, false)
+				if ph != nil {
+					ph.store(hashOf(h))
+				} else {
+					holder.Add(hashOf(h), "entry", common.MultiShard, false)
+				}
 			})
 		}
 	}
@@ -137,12 +197,20 @@ func judge(sc scenario, x *sched.Exec, o *obs) (string, string) {
 		annCount := map[string]int{}
 		firstAnnounce := time.Duration(0)
 		n := 0
+		staggered := len(sc.AnnAt) > 0
+		first := true
 		for i, a := range sc.Announce {
 			if a[1] == h {
 				announcers[fmt.Sprintf("P%d", a[0])] = true
 				annCount[fmt.Sprintf("P%d", a[0])]++
 				n++
-				_ = i
+				if staggered && i < len(sc.AnnAt) {
+					at := time.Duration(sc.AnnAt[i]) * time.Millisecond
+					if first || at < firstAnnounce {
+						firstAnnounce = at
+					}
+					first = false
+				}
 			}
 		}
 		if n == 0 {
@@ -177,8 +245,8 @@ func judge(sc scenario, x *sched.Exec, o *obs) (string, string) {
 			for j := i - 1; j >= 0 && r.at-rs[j].at < pullDelay; j-- {
 				group++
 			}
-			if group > 3 {
-				return "parallel-pull-cap-exceeded", fmt.Sprintf("hash %d: %d requests within one pull delay (cap 3) around %v", h, group, r.at)
+			if group > sc.cap() {
+				return "parallel-pull-cap-exceeded", fmt.Sprintf("hash %d: %d requests within one pull delay (cap %d) around %v", h, group, sc.cap(), r.at)
 			}
 		}
 		for p, c := range asked {
@@ -193,7 +261,7 @@ func judge(sc scenario, x *sched.Exec, o *obs) (string, string) {
 				immediate++
 			}
 		}
-		for i := immediate; i < len(rs); i++ {
+		for i := immediate; i < len(rs) && !staggered; i++ {
 			if rs[i].at-rs[i-1].at < pullDelay && !(sc.LateAnn > 0 && rs[i].at == time.Duration(sc.LateAnn)*time.Millisecond) {
 				return "fallback-before-pull-delay", fmt.Sprintf("hash %d: fallback request to %s at %v only %v after the previous pull", h, rs[i].peer, rs[i].at, rs[i].at-rs[i-1].at)
 			}
@@ -202,7 +270,7 @@ func judge(sc scenario, x *sched.Exec, o *obs) (string, string) {
 		if !o.held[h] {
 			horizonPulls := 1 + int((horizon)/pullDelay) // immediate group + one per elapsed delay
 			want := n
-			if want > immediate+horizonPulls-1 {
+			if want > immediate+horizonPulls-1 && !staggered { // (staggered scenarios choose a horizon at which everybody must have been asked)
 				want = immediate + horizonPulls - 1
 			}
 			if len(asked) < want {
@@ -251,6 +319,20 @@ func scenarios(thorough bool) []scenario {
 		scenario{Name: "4 peers, last announces late (120ms), never arrives", Announce: [][2]int{{1, 0}, {2, 0}, {3, 0}, {4, 0}}, ArriveAt: []int{-1}, Preheld: []bool{false}, LateAnn: 120},
 		scenario{Name: "same peer announces twice + another", Announce: [][2]int{{1, 0}, {1, 0}, {2, 0}}, ArriveAt: []int{150}, Preheld: []bool{false}},
 	)
+	// staggered announcements with the tx pool's parallel cap of 1: a later announcement of an item whose
+	// pull is older is queued *ahead* of the entry the tracker loop is sleeping on
+	out = append(out,
+		scenario{Name: "pool-like holder: B pulled at 0, A at 50 and 60, B again at 100 (queued ahead of the sleeping head)", Pool: true, HorizonMs: 600,
+			Announce: [][2]int{{1, 1}, {1, 0}, {2, 0}, {3, 1}}, AnnAt: []int{0, 50, 60, 100}, ArriveAt: []int{-1, -1}, Preheld: []bool{false, false}},
+		scenario{Name: "pool-like holder: B pulled at 0, A at 50 and 60, B again at 100, A arrives at 120", Pool: true, HorizonMs: 600,
+			Announce: [][2]int{{1, 1}, {1, 0}, {2, 0}, {3, 1}}, AnnAt: []int{0, 50, 60, 100}, ArriveAt: []int{120, -1}, Preheld: []bool{false, false}},
+		scenario{Name: "pool-like holder: three items staggered, second announcers interleaved", Pool: true, HorizonMs: 800,
+			Announce: [][2]int{{1, 0}, {1, 1}, {1, 2}, {2, 2}, {2, 1}, {2, 0}}, AnnAt: []int{0, 30, 60, 70, 80, 130}, ArriveAt: []int{-1, -1, -1}, Preheld: []bool{false, false, false}},
+		scenario{Name: "pool-like holder: 3 peers announce one item, it arrives at 50ms (during the fall-back delay)", Pool: true, HorizonMs: 500,
+			Announce: [][2]int{{1, 0}, {2, 0}, {3, 0}}, AnnAt: []int{0, 0, 0}, ArriveAt: []int{50}, Preheld: []bool{false}},
+		scenario{Name: "default holder: A by 5 peers at 0..40, B by 5 peers at 5..130", HorizonMs: 900,
+			Announce: [][2]int{{1, 0}, {2, 0}, {3, 0}, {4, 0}, {5, 0}, {1, 1}, {2, 1}, {3, 1}, {4, 1}, {5, 1}}, AnnAt: []int{0, 10, 20, 30, 40, 5, 15, 25, 110, 130}, ArriveAt: []int{-1, -1}, Preheld: []bool{false, false}},
+	)
 	if thorough {
 		out = append(out, scenario{Name: "two items, 3 peers each, staggered arrivals", Announce: [][2]int{{1, 0}, {2, 0}, {3, 0}, {1, 1}, {2, 1}, {3, 1}}, ArriveAt: []int{120, 220}, Preheld: []bool{false, false}})
 	}
@@ -267,7 +349,7 @@ func main() {
 				o := &obs{announced: map[int][]string{}, held: make([]bool, len(sc.ArriveAt))}
 				var tr *pushpull.DefaultPushTracker
 				var ho pushpull.Holder
-				sched.RunFree(horizon/4, scenarioBody(sc, o, &tr, &ho))
+				sched.RunFree(sc.horizon()/4, scenarioBody(sc, o, &tr, &ho))
 			}
 		}
 		return
